@@ -1331,64 +1331,412 @@ def _join_parts(e: ast.AST) -> T.List[ast.AST]:
     return [e]
 
 
+def _strip_placeholder_replace(e: ast.AST) -> ast.AST:
+    """`X.replace('{name}', root)` names the same relative path as X (placeholder substitution only)."""
+    while isinstance(e, ast.Call) and call_method(e) == 'replace' and isinstance(e.func, ast.Attribute) and len(e.args) == 2 \
+            and isinstance(e.args[0], ast.Constant) and isinstance(e.args[0].value, str) and e.args[0].value.startswith('{') and e.args[0].value.endswith('}'):
+        e = e.func.value
+    return e
+
+
+INSTALL_CTORS = ('InstallDataBase', 'SubdirInstallData')
+
+
 def r2d(ctx: RuleCtx) -> None:
-    bm, qn, fn = _resolved_method(ctx, 'generate_subdir_install')
-    loops = [l for l in fn.body if isinstance(l, ast.For)]
-    if len(loops) != 1:
-        raise Undecided(f'{qn}: expected one loop over the install_subdir objects')
-    sig = params(ctx.repo.module(BACKENDS).func('SubdirInstallData.__init__'))
-    if sig[:3] != ['path', 'install_path', 'install_path_name']:
-        raise Undecided(f'SubdirInstallData.__init__ signature changed: {sig}')
-    n = 0
-    for pth in enumerate_paths(loops[0].body):
-        env: T.Dict[str, ast.AST] = {}
-        ctor: T.Optional[ast.Call] = None
-        for ev in pth.events:
-            if ev.kind != 'stmt':
-                continue
-            st = ev.node
-            if isinstance(st, (ast.Assign, ast.AnnAssign)) and getattr(st, 'value', None) is not None:
-                tg = st.targets[0] if isinstance(st, ast.Assign) and len(st.targets) == 1 else getattr(st, 'target', None)
-                val = _Sub(env).visit(copy.deepcopy(st.value))
-                for c in ast.walk(val):
-                    if isinstance(c, ast.Call) and call_method(c) == 'SubdirInstallData':
-                        ctor = c
-                if isinstance(tg, ast.Name):
-                    env[tg.id] = val
-            elif isinstance(st, ast.Expr):
-                for c in ast.walk(_Sub(env).visit(copy.deepcopy(st.value))):
-                    if isinstance(c, ast.Call) and call_method(c) == 'SubdirInstallData':
-                        ctor = c
-        if ctor is None:
+    """Every producer of an InstallDataBase/SubdirInstallData: install_path (minstall, intro-installed) and install_path_name
+    (intro-install_plan) are joined from the same per-file components."""
+    bmod = ctx.repo.module(BACKENDS)
+    sig = [st.target.id for st in bmod.cls('InstallDataBase').body if isinstance(st, ast.AnnAssign) and isinstance(st.target, ast.Name)]
+    if sig[:3] != ['path', 'install_path', 'install_path_name'] or params(bmod.func('SubdirInstallData.__init__'))[:3] != sig[:3]:
+        raise Undecided(f'InstallDataBase/SubdirInstallData field order changed: {sig[:3]}')
+    producers = sorted(n for n, f in bmod.methods('Backend').items() if n.startswith('generate_') and n.endswith('_install')
+                       and any(isinstance(c, ast.Call) and call_method(c) in INSTALL_CTORS for c in ast.walk(f)))
+    ctx.floor('producers of InstallDataBase/SubdirInstallData entries', len(producers), 5)
+    n_ctor = 0
+    for name in producers:
+        bm, qn, fn = _resolved_method(ctx, name)
+        pm = parents(fn)
+        # per constructor call: innermost enclosing loop (if nested in another loop) -> per-file variables
+        leafvars: T.Dict[int, T.Set[str]] = {}
+        for c in ast.walk(fn):
+            if isinstance(c, ast.Call) and call_method(c) in INSTALL_CTORS:
+                loops_: T.List[ast.For] = []
+                node: ast.AST = c
+                while node in pm:
+                    node = pm[node]
+                    if isinstance(node, ast.For):
+                        loops_.append(node)
+                leafvars[id(c)] = {x.id for x in ast.walk(loops_[0].target) if isinstance(x, ast.Name)} if len(loops_) >= 2 else set()
+        results: T.Dict[int, T.List[T.Tuple[bool, str, str]]] = {}
+        ctor_node: T.Dict[int, ast.Call] = {}
+        for pth in enumerate_paths(fn.body):
+            env: T.Dict[str, ast.AST] = {}
+            for ev in pth.events:
+                if ev.kind == 'iter' and isinstance(ev.node, ast.For):
+                    for x in ast.walk(ev.node.target):
+                        if isinstance(x, ast.Name):
+                            env.pop(x.id, None)
+                    continue
+                if ev.kind == 'with' and ev.node is not None:
+                    for it in ev.node.items:  # type: ignore[attr-defined]
+                        if it.optional_vars is not None:
+                            for x in ast.walk(it.optional_vars):
+                                if isinstance(x, ast.Name):
+                                    env.pop(x.id, None)
+                    continue
+                if ev.kind != 'stmt':
+                    continue
+                st = ev.node
+                orig_calls = [c for c in ast.walk(st) if isinstance(c, ast.Call) and call_method(c) in INSTALL_CTORS]
+                for oc in orig_calls:
+                    c = _Sub(env).visit(copy.deepcopy(oc))
+                    args = {sig[i]: a for i, a in enumerate(c.args) if i < len(sig)}
+                    args.update({k.arg: k.value for k in c.keywords if k.arg})
+                    if 'install_path' not in args or 'install_path_name' not in args:
+                        raise Undecided(f'{qn}: constructor call not understood: {short(oc)}')
+                    comps = {k: _join_parts(_strip_placeholder_replace(args[k])) for k in ('install_path', 'install_path_name')}
+                    base = {k: [norm(x) for x in v if isinstance(x, ast.Call) and call_method(x) == 'basename'] for k, v in comps.items()}
+                    lv = leafvars.get(id(oc), set())
+                    leaf = {k: [norm(x) for x in v if lv & {y.id for y in ast.walk(x) if isinstance(y, ast.Name)}] for k, v in comps.items()}
+                    ok = base['install_path'] == base['install_path_name'] and leaf['install_path'] == leaf['install_path_name']
+                    what = ' & '.join(('' if v else 'not ') + t for t, v in pth.conds()) or 'always'
+                    detail = (f'install_path is joined from per-file components {leaf["install_path"] + [b for b in base["install_path"] if b not in leaf["install_path"]]}, '
+                              f'install_path_name from {leaf["install_path_name"] + [b for b in base["install_path_name"] if b not in leaf["install_path_name"]]}')
+                    results.setdefault(id(oc), []).append((ok, what, detail))
+                    ctor_node[id(oc)] = oc
+                if isinstance(st, (ast.Assign, ast.AnnAssign)) and getattr(st, 'value', None) is not None:
+                    val = _Sub(env).visit(copy.deepcopy(st.value))
+                    tgs = st.targets if isinstance(st, ast.Assign) else [st.target]
+                    for tg in tgs:
+                        if isinstance(tg, ast.Name):
+                            env[tg.id] = val
+                        else:
+                            for x in ast.walk(tg):
+                                if isinstance(x, ast.Name) and isinstance(x.ctx, ast.Store):
+                                    env.pop(x.id, None)
+                elif isinstance(st, ast.AugAssign) and isinstance(st.target, ast.Name):
+                    env.pop(st.target.id, None)
+        for cid, rs in results.items():
+            n_ctor += 1
+            oc = ctor_node[cid]
+            bad = [(w, d) for ok, w, d in rs if not ok]
+            if bad:
+                for w, d in dict(bad).items():
+                    ctx.violation(bm, qn, f'{short(oc, 70)} on path: {w}', f'on the path [{w}] {d}: `meson install`/intro-installed.json (install_path) and '
+                                  'intro-install_plan.json (install_path_name) name different files', oc)
+            else:
+                ctx.ok(f'{qn}: `{short(oc, 60)}`: install_path and install_path_name carry the same per-file components on {len(rs)} path(s)')
+    ctx.floor('install entry constructor sites', n_ctor, 6)
+
+
+
+# ---------------------------------------------------------------------------
+# R1f the source lists recorded for introspection are the lists handed to the compile statement (writer/consumer agreement)
+
+ELEMENT_FEEDERS = {'add_dep', 'add_orderdep'}
+FILL = {'append', 'extend', 'add', 'insert'}
+
+
+def _builds_element_from(ctx: RuleCtx, meth: str, index: int) -> bool:
+    """self.<meth>(...) hands its index-th positional argument to a NinjaBuildElement (one level)."""
+    try:
+        _, _, fn = _resolved_method(ctx, meth)
+    except Undecided:
+        return False
+    ps = params(fn)
+    if index >= len(ps):
+        return False
+    fl = Flow(fn, nested=False)
+    want = f'param:{ps[index]}'
+    for c in walk_no_nested(fn):
+        if isinstance(c, ast.Call) and (call_method(c) == 'NinjaBuildElement' or call_method(c) in ELEMENT_FEEDERS):
+            if any(want in fl.origins(a) for a in c.args):
+                return True
+    return False
+
+
+def _consumed_names(ctx: RuleCtx, fn: FuncNode, loc: Locals) -> T.Tuple[T.Set[str], T.Set[str]]:
+    """Local names that occur in the arguments of (a) a compile-statement constructor / element-building helper, (b) a dependency feeder.
+    Names bound to a plain combination of other lists (`inputs = a + b`, `[*a, *b]`) stand for their parts as well."""
+    inputs: T.Set[str] = set()
+    deps: T.Set[str] = set()
+    for c in walk_no_nested(fn):
+        if not isinstance(c, ast.Call):
             continue
-        args = {sig[i]: a for i, a in enumerate(ctor.args) if i < len(sig)}
-        args.update({k.arg: k.value for k in ctor.keywords if k.arg})
-        if 'install_path' not in args or 'install_path_name' not in args or 'path' not in args:
-            raise Undecided(f'{qn}: SubdirInstallData(...) call not understood: {short(ctor)}')
-        src = norm(args['path'])
-        tails = {}
-        for k in ('install_path', 'install_path_name'):
-            tails[k] = [norm(c) for c in _join_parts(args[k]) if isinstance(c, ast.Call) and call_method(c) == 'basename']
+        m = call_method(c)
+        if m == 'NinjaBuildElement':
+            for a in c.args:
+                inputs |= {n.id for n in ast.walk(a) if isinstance(n, ast.Name)}
+        elif m in ELEMENT_FEEDERS:
+            for a in c.args:
+                deps |= {n.id for n in ast.walk(a) if isinstance(n, ast.Name)}
+        elif recv(c) == 'self' and m and m.startswith('generate_'):
+            for i, a in enumerate(c.args):
+                if _builds_element_from(ctx, m, i):
+                    inputs |= {n.id for n in ast.walk(a) if isinstance(n, ast.Name)}
+    for grp in (inputs, deps):
+        for _ in range(3):
+            for nm in list(grp):
+                for d in loc.defs.get(nm, []):
+                    if d is not None and all(isinstance(x, (ast.Name, ast.BinOp, ast.Add, ast.List, ast.Tuple, ast.Starred, ast.Load)) for x in ast.walk(d)):
+                        grp |= {x.id for x in ast.walk(d) if isinstance(x, ast.Name)}
+    return inputs, deps
+
+
+def _fill_sites(fn: FuncNode, pm: T.Dict[ast.AST, ast.AST], name: str) -> T.List[T.Tuple[ast.Call, ast.AST]]:
+    """(call, enclosing statement) of every `name.append/extend/...(...)`."""
+    out = []
+    for c in walk_no_nested(fn):
+        if isinstance(c, ast.Call) and isinstance(c.func, ast.Attribute) and c.func.attr in FILL and isinstance(c.func.value, ast.Name) and c.func.value.id == name:
+            st: ast.AST = c
+            while st in pm and not isinstance(st, ast.stmt):
+                st = pm[st]
+            out.append((c, st))
+    return out
+
+
+def _relation(fn: FuncNode, pm: T.Dict[ast.AST, ast.AST], recorded: str, consumed: T.Set[str], loc: Locals) -> T.Tuple[str, str]:
+    """How the recorded list relates to a consumed one: same | co-filled | transformed | filtered | unknown."""
+    if recorded in consumed:
+        return 'same', recorded
+    # co-filled: every fill of `recorded` sits in a block that also fills one consumed list
+    fills = _fill_sites(fn, pm, recorded)
+    if fills:
+        for cname in sorted(consumed):
+            cf = _fill_sites(fn, pm, cname)
+            if cf and all(any(pm.get(st) is pm.get(st2) and _same_field(pm, st, st2) for _, st2 in cf) for _, st in fills) and len(cf) == len(fills):
+                return 'co-filled', cname
+    # a consumed list derived from `recorded` element by element, with or without a filter
+    for cname in sorted(consumed):
+        for d in loc.defs.get(cname, []):
+            if isinstance(d, (ast.ListComp, ast.GeneratorExp, ast.SetComp)) and len(d.generators) == 1 and isinstance(d.generators[0].iter, ast.Name) \
+                    and d.generators[0].iter.id == recorded:
+                return ('filtered' if d.generators[0].ifs else 'transformed'), cname
+        for c, st in _fill_sites(fn, pm, cname):
+            node: ast.AST = st
+            guarded = False
+            while node in pm:
+                par = pm[node]
+                if isinstance(par, ast.If):
+                    guarded = True
+                if isinstance(par, ast.For) and isinstance(par.iter, ast.Name) and par.iter.id == recorded:
+                    return ('filtered' if guarded else 'transformed'), cname
+                node = par
+    return 'unknown', ''
+
+
+def _same_field(pm: T.Dict[ast.AST, ast.AST], a: ast.AST, b: ast.AST) -> bool:
+    par = pm.get(a)
+    if par is None:
+        return False
+    for f in ('body', 'orelse', 'finalbody'):
+        blk = getattr(par, f, None)
+        if isinstance(blk, list) and a in blk:
+            return b in blk
+    return False
+
+
+def r1f(ctx: RuleCtx) -> None:
+    nmod = ctx.repo.module(NINJA)
+    sig = params(nmod.func('NinjaBackend.create_target_source_introspection'))
+    n = 0
+    for name, m in sorted(nmod.methods('NinjaBackend').items()):
+        if name == 'generate_single_compile':
+            continue   # one source per call: decided by C15.R1c (record dominates the element, list chosen by is_generated)
+        sites = method_calls(m, 'create_target_source_introspection', nested=False)
+        if not sites:
+            continue
+        qn = f'NinjaBackend.{name}'
+        pm = parents(m)
+        loc = Locals(m)
+        inputs, deps = _consumed_names(ctx, m, loc)
+        for c in sites:
+            args = {sig[i]: a for i, a in enumerate(c.args) if i < len(sig)}
+            args.update({k.arg: k.value for k in c.keywords if k.arg})
+            for role in ('sources', 'generated_sources'):
+                if role not in args:
+                    raise Undecided(f'{qn}: {short(c)} does not pass {role}')
+                e = args[role]
+                if isinstance(e, (ast.List, ast.Tuple)) and not e.elts:
+                    continue
+                leaves = [x.id for x in ast.walk(e) if isinstance(x, ast.Name)]
+                if not leaves or any(isinstance(x, ast.Call) for x in ast.walk(e)):
+                    raise Undecided(f'{qn}: recorded {role} `{short(e)}` is not a plain list of locals')
+                for lf in leaves:
+                    n += 1
+                    # the statement's inputs decide; its dependency lists only count when the value is not related to any input list
+                    rel, other = _relation(m, pm, lf, inputs, loc)
+                    if rel == 'unknown':
+                        rel, other = _relation(m, pm, lf, deps, loc)
+                    if rel == 'unknown':
+                        raise Undecided(f'{qn}: cannot relate the recorded {role} `{lf}` to what the compile statement of this function consumes')
+                    ctx.require(rel != 'filtered', f'{qn}: recorded {role} `{lf}` is what the compile statement consumes ({rel}{" with " + other if other != lf else ""})',
+                                nmod, qn, f'{role}={lf}', f'target_sources records `{lf}` as {role}, but the compile statement only receives `{other}`, the subset of it '
+                                f'that passes a filter: intro-targets.json lists files the compiler never sees', c)
+    ctx.floor('recorded source lists outside generate_single_compile', n, 7)
+
+
+# ---------------------------------------------------------------------------
+# R1g create_test_serialisation runs twice (pickle, introspection): it must not mutate the model it reads (K2, may-alias)
+
+CONTAINER_MUTATORS = {'append', 'extend', 'insert', 'add', 'update', 'setdefault', 'pop', 'remove', 'clear', 'discard', 'sort', 'reverse', 'popitem', 'appendleft'}
+FRESH_CTORS = {'list', 'set', 'dict', 'tuple', 'frozenset', 'sorted', 'OrderedSet', 'OrderedDict', 'defaultdict', 'deque'}
+
+
+def _method_effect(ctx: RuleCtx, cmod: Module, cls: ast.ClassDef, meth: str, depth: int = 2) -> str:
+    """'pure' | 'shallow' (rebinds self.<attr> only) | 'deep' (mutates a container held by self) | 'unknown'."""
+    r = ctx.repo.find_method(cmod, cls, meth)
+    if r is None:
+        return 'unknown'
+    _, _, fn = r
+    eff = 'pure'
+    for n in walk_no_nested(fn):
+        tg: T.List[ast.AST] = []
+        if isinstance(n, ast.Assign):
+            tg = list(n.targets)
+        elif isinstance(n, (ast.AugAssign, ast.AnnAssign)):
+            tg = [n.target]
+        elif isinstance(n, ast.Delete):
+            tg = list(n.targets)
+        for t in tg:
+            if isinstance(t, ast.Attribute) and attr_chain(t) == f'self.{t.attr}':
+                eff = 'shallow' if eff == 'pure' else eff
+            elif isinstance(t, ast.Subscript) and (attr_chain(t.value) or '').startswith('self.'):
+                return 'deep'
+        if isinstance(n, ast.Call) and isinstance(n.func, ast.Attribute):
+            rc = attr_chain(n.func.value) or ''
+            if rc.startswith('self.') and n.func.attr in CONTAINER_MUTATORS:
+                return 'deep'
+            if rc == 'self' and depth > 0:
+                sub = _method_effect(ctx, cmod, cls, n.func.attr, depth - 1)
+                if sub in ('deep', 'unknown'):
+                    return sub if sub == 'deep' else eff
+                if sub == 'shallow' and eff == 'pure':
+                    eff = 'shallow'
+    return eff
+
+
+def r1g(ctx: RuleCtx) -> None:
+    bm, qn, fn = _resolved_method(ctx, 'create_test_serialisation')
+    p0 = param(fn, 0, qn)
+    loc = Locals(fn)
+
+    def over_tests(e: ast.AST) -> bool:
+        try:
+            e = loc.resolve(e)
+        except Undecided:
+            return False
+        return p0 in {x.id for x in ast.walk(e) if isinstance(x, ast.Name)}
+    loops = [l for l in fn.body if isinstance(l, ast.For) and isinstance(l.target, ast.Name) and over_tests(l.iter)]
+    if len(loops) != 1:
+        raise Undecided(f'{qn}: loop over the tests not found')
+    tv = loops[0].target.id
+    # field types of the serialisation object: locals handed to TestSerialisation(...) have the annotated type of that field
+    tsc = bm.cls('TestSerialisation')
+    fields = [(st.target.id, st.annotation) for st in tsc.body if isinstance(st, ast.AnnAssign) and isinstance(st.target, ast.Name)]
+    ctor = [c for c in ast.walk(loops[0]) if isinstance(c, ast.Call) and call_method(c) == 'TestSerialisation']
+    if len(ctor) != 1:
+        raise Undecided(f'{qn}: TestSerialisation(...) construction not found')
+    local_type: T.Dict[str, ast.AST] = {}
+    for i, a in enumerate(ctor[0].args):
+        if isinstance(a, ast.Name) and i < len(fields):
+            local_type[a.id] = fields[i][1]
+    for k in ctor[0].keywords:
+        if isinstance(k.value, ast.Name) and k.arg in dict(fields):
+            local_type[k.value.id] = dict(fields)[k.arg]
+
+    def model_rooted(e: ast.AST) -> bool:
+        c = attr_chain(e)
+        return c is not None and c.split('.')[0] in (tv, p0) and '.' in c
+
+    def origin(name: str, seen: T.Set[str]) -> T.List[T.Tuple[str, ast.AST]]:
+        """Kinds of value a local may hold: fresh | deep | shallow-copy-of-model | alias | param | unknown."""
+        if name in seen:
+            return []
+        seen = seen | {name}
+        out: T.List[T.Tuple[str, ast.AST]] = []
+        for d in loc.defs.get(name, []):
+            if d is None:
+                out.append(('unknown', ast.Name(id=name, ctx=ast.Load())))
+                continue
+            e = d
+            while isinstance(e, ast.Attribute):
+                e = e.value
+            if isinstance(d, (ast.List, ast.Set, ast.Dict, ast.ListComp, ast.SetComp, ast.DictComp, ast.Tuple, ast.Constant, ast.JoinedStr, ast.BinOp)):
+                out.append(('fresh', d))
+            elif isinstance(e, ast.Call) and call_name(e) in ('copy.deepcopy', 'deepcopy'):
+                out.append(('deep', d))
+            elif isinstance(d, ast.Call) and (call_name(d) in ('copy.copy', 'copy') or (call_method(d) == 'copy' and not d.args)):
+                src = d.args[0] if d.args else d.func.value  # type: ignore[attr-defined]
+                if model_rooted(src):
+                    out.append(('shallow', d))
+                elif isinstance(src, ast.Name):
+                    sub = origin(src.id, seen)
+                    out.extend((('shallow' if k in ('alias', 'shallow') else k), d) for k, _ in sub) if sub else out.append(('unknown', d))
+                else:
+                    out.append(('unknown', d))
+            elif isinstance(d, ast.Call) and isinstance(d.func, ast.Name) and (d.func.id in FRESH_CTORS or d.func.id[:1].isupper()):
+                out.append(('fresh', d))
+            elif model_rooted(d):
+                out.append(('alias', d))
+            elif isinstance(d, ast.Name):
+                out.extend(origin(d.id, seen) or [('unknown', d)])
+            else:
+                out.append(('unknown', d))
+        return out
+
+    n = 0
+    for c in ast.walk(loops[0]):
+        if not (isinstance(c, ast.Call) and isinstance(c.func, ast.Attribute)):
+            continue
+        rcv = c.func.value
+        meth = c.func.attr
+        # mutation through an expression rooted at the model itself
+        if model_rooted(rcv) and meth in CONTAINER_MUTATORS:
+            n += 1
+            ctx.violation(bm, qn, c, f'`{short(c)}` mutates {attr_chain(rcv)} of the Test object in place: the second serialisation (intro-tests.json) differs from '
+                          'the first (meson_test_setup.dat)', c)
+            continue
+        if not isinstance(rcv, ast.Name) or rcv.id in (tv, p0) or rcv.id not in loc.defs:
+            continue
+        # does the method mutate its receiver?
+        effect = 'deep-or-top' if meth in CONTAINER_MUTATORS else None
+        cls_txt = None
+        if rcv.id in local_type:
+            cls_txt = attr_chain(local_type[rcv.id])
+            rc = ctx.repo.resolve_class(bm, cls_txt) if cls_txt else None
+            if rc is not None:
+                effect = _method_effect(ctx, rc[0], rc[1], meth)
+                if effect == 'pure':
+                    continue
+        if effect is None:
+            continue   # not a known mutator name and no repository class to look into
+        kinds = origin(rcv.id, set())
         n += 1
-        what = ' & '.join(('' if v else 'not ') + t for t, v in pth.conds()) or 'always'
-        ok = tails['install_path'] == tails['install_path_name'] and all(x == f'os.path.basename({src})' for x in tails['install_path'])
-        ctx.require(ok, f'{qn} [{what}]: install destination and plan destination both end with {"basename(source dir)" if tails["install_path"] else "no basename"}', bm, qn,
-                    f'path: {what}', f'on the path [{what}] the directory is installed to <dir>{"/basename(source dir)" * len(tails["install_path"])} '
-                    f'(SubdirInstallData.install_path, used by minstall and intro-installed.json) but intro-install_plan.json reports '
-                    f'<dir>{"/basename(source dir)" * len(tails["install_path_name"])} (install_path_name)', ctor)
-    ctx.floor('paths through generate_subdir_install that build a SubdirInstallData', n, 8)
+        desc = f'`{short(c, 70)}`'
+        if any(k == 'unknown' for k, _ in kinds) or effect == 'unknown':
+            raise Undecided(f'{qn}: {desc} mutates `{rcv.id}` whose origin/effect is not understood')
+        # a shallow copy protects against top-level container mutation only, not against methods writing into containers held by the object
+        bad = [k for k, _ in kinds if k == 'alias' or (k == 'shallow' and effect == 'deep')]
+        ctx.require(not bad, f'{qn}: {desc} works on a private value ({", ".join(sorted({k for k, _ in kinds}))}; effect {effect})', bm, qn, c,
+                    f'{desc} mutates state shared with the Test object (`{rcv.id}` is {"/".join(sorted({"an alias" if b == "alias" else "a shallow copy" for b in bad}))}: {short(kinds[0][1], 50)}'
+                    f'{"; " + meth + "() of " + cls_txt + " writes into containers held by the object, which a shallow copy shares" if "shallow" in bad else ""}): '
+                    'create_test_serialisation runs once for meson_test_setup.dat and again for intro-tests.json, so the second result differs from the first', c)
+    ctx.floor('mutating calls on locals of create_test_serialisation', n, 6)
 
 
 RULES = [
     Rule('C15.R1a', 'tests/benchmarks: the pickled serialisation is the introspected one', r1a),
     Rule('C15.R1b', 'install plan/installed/targets: install.dat and the JSON share create_install_data()', r1b),
     Rule('C15.R1c', 'target_sources come from the store the statement generators fill, keyed by target id', r1c),
+    Rule('C15.R1f', 'recorded source lists are the lists the compile statement consumes (no unfiltered superset)', r1f),
+    Rule('C15.R1g', 'create_test_serialisation (run for the pickle and again for the JSON) does not mutate the model', r1g),
     Rule('C15.R1d', 'build options projection covers every value store of the get_option() resolver', r1d),
     Rule('C15.R1e', 'every documented intro file is produced from (coredata, build, backend); buildsystem_files = Build.def_files', r1e),
     Rule('C15.R2a', 'documented test keys are projected from the TestSerialisation fields mtest reads', r2a),
     Rule('C15.R2b', 'install plan reports the fields should_install filters on; five categories covered', r2b),
     Rule('C15.R2c', 'list_installed agrees with the per-kind installers on source and destination fields', r2c),
-    Rule('C15.R2d', 'install_subdir: plan and install destinations append the same source basename on every path', r2d),
+    Rule('C15.R2d', 'every install producer: install_path and install_path_name are joined from the same per-file components', r2d),
     Rule('C15.R3', 'mintro and backend agree on the target output directory', r3),
     Rule('C15.R5', 'add_build_def_file rules out the build dir before testing the source dir on every recording path', r5),
     Rule('C15.R4', 'introspection generated only after backend.generate, same build/backend', r4),
